@@ -7,7 +7,7 @@ Theorem C11_encode_layout : forall e : event, wf_event e = true -> encode e = la
 Proof. exact encode_layout. Qed.
 
 (* the codes are the fixed table 0x0000-0x000f in kind order (the source constants are tied to this
-   table by Generated/Tie.v, re-proved on every run) *)
+   table by Generated/TieCodes.v, re-proved on every run) *)
 Theorem C11_codes : map code all_kinds = [0; 1; 2; 3; 4; 5; 6; 7; 8; 9; 10; 11; 12; 13; 14; 15].
 Proof. reflexivity. Qed.
 
